@@ -60,6 +60,8 @@ func init() {
 				NodeCfg{Kind: "mapfull", TotalRows: rowsChoice(r), Relay: "rebatch", NoUndo: true})
 			if r.Pct(50) {
 				ns = append(ns, NodeCfg{Kind: "mappartial", TotalRows: -1, FromRoots: 1 + r.Intn(4)})
+			} else {
+				ns = append(ns, NodeCfg{Kind: "mappartial", TotalRows: -1, FromRoots: 1 + r.Intn(4), FullRoots: true})
 			}
 			return ns
 		},
